@@ -13,6 +13,10 @@ package main
 
 import (
 	"context"
+	"crypto/sha256"
+	"crypto/tls"
+	"crypto/x509"
+	"encoding/hex"
 	"errors"
 	"fmt"
 	"net/http"
@@ -27,6 +31,7 @@ import (
 	"github.com/sassoftware/relic/v8/server"
 
 	"verif/faketoken"
+	"verif/relicx"
 	"verif/shim/vcontext"
 	"verif/shim/vtime"
 	"verif/vlib"
@@ -42,6 +47,9 @@ func (e event) String() string {
 	if e.Kind == "check" {
 		return "check(" + strings.Join(e.V, ",") + ")"
 	}
+	if e.Kind == "drain" {
+		return "drain-token-budgets"
+	}
 	return fmt.Sprintf("advance(%s)", time.Duration(e.D))
 }
 
@@ -51,6 +59,11 @@ type cfgT struct {
 	Disabled bool
 	Interval int // seconds
 	Timeout  int
+	// RateLimited: tokens.<name>.ratelimit is set (one operation per hour, burst
+	// 1) and the history alphabet gains "drain": one key lookup per token through
+	// the real handler, which uses up the budget. Health checking is not a
+	// signing operation: what it reports must not depend on the budget.
+	RateLimited bool
 
 	extraDeltas bool
 }
@@ -80,7 +93,14 @@ func mkConfig(c cfgT) *config.Config {
 	for i := 0; i < c.Tokens; i++ {
 		tn := fmt.Sprintf("t%d", i)
 		cfg.Tokens[tn] = &config.TokenConfig{Type: faketoken.Type}
+		if c.RateLimited {
+			cfg.Tokens[tn].RateLimit, cfg.Tokens[tn].RateBurst = 1.0/3600, 1
+		}
 		cfg.Keys[fmt.Sprintf("k%d", i)] = &config.KeyConfig{Token: tn, Roles: []string{"r"}}
+	}
+	if c.RateLimited {
+		d := sha256.Sum256(relicx.ClientCert().RawSubjectPublicKeyInfo)
+		cfg.Clients[hex.EncodeToString(d[:])] = &config.ClientConfig{Nickname: "c20-client", Roles: []string{"r"}}
 	}
 	if err := cfg.Normalize(""); err != nil {
 		panic(err)
@@ -106,6 +126,7 @@ type instance struct {
 	pingCh  chan pingReq
 	done    chan struct{}
 	held    *pingReq // first ping of a round, not answered yet: the loop is not waiting on a timer
+	drained bool     // rate-limited configuration: the tokens' budgets have been used up
 }
 
 type pingReq struct {
@@ -193,6 +214,11 @@ func (in *instance) settle(hist []event) bool {
 }
 
 func newInstance(c cfgT) *instance {
+	if c.RateLimited {
+		// the limiter (golang.org/x/time/rate) reads the real clock and compares it
+		// with context deadlines: keep the virtual clock where the real one is
+		vtime.Epoch = time.Now()
+	}
 	vtime.ResetClock()
 	vtime.Events = make(chan vtime.Event, 1024)
 	faketoken.Reset()
@@ -247,6 +273,17 @@ func (in *instance) apply(e event, hist []event) {
 		return
 	}
 	switch e.Kind {
+	case "drain":
+		// one key lookup per token through the real handler; the request gives up
+		// after 2 s of real time, so a second lookup on an empty budget returns
+		for i := 0; i < in.c.Tokens; i++ {
+			ctx, cancel := context.WithTimeout(context.Background(), 2*time.Second)
+			req := httptest.NewRequest("GET", fmt.Sprintf("/keys/k%d", i), nil).WithContext(ctx)
+			req.TLS = &tls.ConnectionState{PeerCertificates: []*x509.Certificate{relicx.ClientCert()}}
+			in.h.ServeHTTP(httptest.NewRecorder(), req)
+			cancel()
+		}
+		in.drained = true
 	case "advance":
 		vtime.Advance(time.Duration(e.D))
 	case "check":
@@ -411,6 +448,9 @@ func (in *instance) canon() string {
 	for i := len(in.results) - 1; i >= 0 && !in.results[i] && trail < n; i-- {
 		trail++
 	}
+	if in.drained {
+		return fmt.Sprintf("st=%d age=%d trail=%d drained", status, age, trail)
+	}
 	return fmt.Sprintf("st=%d age=%d trail=%d", status, age, trail)
 }
 
@@ -485,7 +525,17 @@ func explore(c cfgT) {
 			run.Capped(fmt.Sprintf("config %+v: depth bound %d reached with unexplored successors", c, maxDepth))
 			continue
 		}
-		for _, e := range alphabet {
+		evs := alphabet
+		if c.RateLimited {
+			already := false
+			for _, e := range nd.hist {
+				already = already || e.Kind == "drain"
+			}
+			if !already {
+				evs = append(append([]event{}, alphabet...), event{Kind: "drain"})
+			}
+		}
+		for _, e := range evs {
 			hist := append(append([]event{}, nd.hist...), e)
 			in := build(hist)
 			run.Eval(1)
@@ -558,6 +608,7 @@ func main() {
 	} else {
 		cfgs = append(cfgs, cfgT{N: 2, Tokens: 2, Interval: 10, Timeout: 20})
 	}
+	cfgs = append(cfgs, cfgT{N: 2, Tokens: 1, Interval: 60, Timeout: 60, RateLimited: true})
 	for _, c := range cfgs {
 		explore(c)
 		if loopBroken {
@@ -568,7 +619,7 @@ func main() {
 		daemonPhase()
 	}
 	run.Set("configurations", len(cfgs))
-	run.Rule("state = canonical (healthStatus, age of last completed check saturated just above 3 intervals, trailing failure run) reached by a history of events {check(vector over ok/error/timeout per token), advance(1 | 3 | 3+1ns intervals; thorough adds 1ns and 3 intervals-1ns in one depth-bounded configuration)} replayed on a fresh real server.New; BFS to fixpoint per configuration; GET /health compared with the reference predicate in every state; Close (twice) at every transition target and, for every check transition, with the first ping of that check still outstanding: the round in flight may finish, no further round may start, the loop goroutine must end; the real daemon (loopback listeners, virtual grace period) shut down with each of {no fault, a listener whose Close fails, a request still inside a token operation when the grace period ends}: after Daemon.Close the loop goroutine is gone and the tokens are closed. distinct_nontrivial = distinct canonical states other than the initial one")
+	run.Rule("state = canonical (healthStatus, age of last completed check saturated just above 3 intervals, trailing failure run) reached by a history of events {check(vector over ok/error/timeout per token), advance(1 | 3 | 3+1ns intervals; thorough adds 1ns and 3 intervals-1ns in one depth-bounded configuration); one configuration with tokens.<name>.ratelimit set adds drain-token-budgets (a key lookup per token through the real handler, once per history)} replayed on a fresh real server.New; BFS to fixpoint per configuration; GET /health compared with the reference predicate in every state; Close (twice) at every transition target and, for every check transition, with the first ping of that check still outstanding: the round in flight may finish, no further round may start, the loop goroutine must end; the real daemon (loopback listeners, virtual grace period) shut down with each of {no fault, a listener whose Close fails, a request still inside a token operation when the grace period ends}: after Daemon.Close the loop goroutine is gone and the tokens are closed. distinct_nontrivial = distinct canonical states other than the initial one")
 	run.Assume("token Ping order inside one check is map order; the reference treats the per-check outcome vector as a multiset")
 	run.Assume("goroutine exit after Close is observed by polling runtime.Stack for up to 10 s (correct code exits in microseconds)")
 	run.Assume("the loop is driven only through what it waits on (virtual timers / tickers, token pings); a loop that starts more than 3 rounds of pings per wake-up is held at the next ping, judged and closed there, and not expanded further")
